@@ -980,7 +980,13 @@ class Engine:
         if isinstance(tgt, ast.Name):
             hint = self._local_ty(tgt.id)
             if hint is not None:
-                v = self.coerce(v, hint, st, node)
+                try:
+                    v = self.coerce(v, hint, st, node)
+                except Unsupported:
+                    if writeback:
+                        raise
+                    # the name is rebound to a value of another kind (`outputs = None`, `outputs = outputs[0]`): the
+                    # declared sort only serves empty literals and loop accumulators
             if writeback:
                 if tgt.id in st.alias:  # the variable is element k of a sequence: the element is what changed
                     q, k = st.alias[tgt.id]
@@ -1333,6 +1339,10 @@ class Engine:
             return v
         if ty is TObj and isinstance(v.ty, TNoneT):
             return Val(TObj, TObj.lit(None))  # None is an object like any other (a distinguished constant of the sort)
+        if ty is TObj and isinstance(v.ty, TRec) and getattr(v.ty, "identity", None) in v.ty.fields \
+                and v.ty.fields[v.ty.identity] is TObj:
+            # an object seen through a record view, used where any object is expected: its identity field
+            return Val(TObj, v.ty.get(v.t, v.ty.identity).t)
         if ty is TObj and (v.ty is TStr or v.ty is TInt or v.ty is TBool):
             # a string / number used where any object is expected: boxed by an (uninterpreted) injection of its sort
             box = z3.Function(f"box:{v.ty.name}", v.ty.sort(), TObj.sort())
@@ -1342,6 +1352,9 @@ class Engine:
                 return Val(ty, ty.none())
             inner = self.coerce(v, ty.elem, st, node)
             return Val(ty, ty.some(inner.t))
+        if isinstance(v.ty, TOpt) and v.ty.elem is TObj and ty is TObj:
+            # an Optional object used where any object is expected: None is such an object
+            return Val(TObj, z3.If(v.ty.is_none(v.t), TObj.lit(None), v.ty.val(v.t)))
         if isinstance(v.ty, TOpt) and v.ty.elem.name == ty.name:
             # flow-sensitive projection: using an Optional as its payload; None would be a TypeError/AttributeError
             self.raise_if(st, v.ty.is_none(v.t), "TypeError", getattr(node, "lineno", None))
